@@ -4,6 +4,7 @@
   sticky; standard output only grows.
 -/
 import YashModel.Input.Frame
+import YashModel.Input.RedirLemmas
 namespace YashModel.Input
 
 /-- the same state with more input after the cursor of the script descriptor -/
@@ -158,6 +159,18 @@ theorem execSimple_grows (s : State) (fields : List String)
 
 /-! ### `step`, `runK` -/
 
+theorem setDesc_grows (s : State) (d : SavedIn) : Grows s (setDesc s d) := grows_of_eq rfl rfl rfl
+
+theorem performIn_grows (rs : List Rd) (saved : List SavedIn) (s : State) :
+    Grows s (performIn rs saved s).2.1 := by
+  rw [performIn_state]; exact setDesc_grows _ _
+
+theorem undoIn_grows (saved : List SavedIn) (s : State) : Grows s (undoIn saved s) := by
+  rw [undoIn_state]; exact setDesc_grows _ _
+
+theorem app_comm_setDesc (S : List Byte) : ∀ (s : State) (d : SavedIn),
+    setDesc (s.app S) d = (setDesc s d).app S := fun _ _ => rfl
+
 theorem stepSimple_grows (ws : List Word) (here : Option (List Char)) (k : List K) (s : State) :
     Grows s (stepSimple ws here k s).2 := by
   unfold stepSimple; split
@@ -187,6 +200,13 @@ theorem step_grows (k k' : List K) (s s' : State)
       | subsh b => simp only [step, Option.some.injEq, Prod.mk.injEq] at h; rw [← h.2]; exact Grows.refl _
       | andor l a r => simp only [step, Option.some.injEq, Prod.mk.injEq] at h; rw [← h.2]; exact Grows.refl _
       | neg c => simp only [step, Option.some.injEq, Prod.mk.injEq] at h; rw [← h.2]; exact Grows.refl _
+      | redir rs c =>
+        simp only [step] at h
+        split at h <;> (simp only [Option.some.injEq, Prod.mk.injEq] at h; rw [← h.2])
+        · exact performIn_grows _ _ _
+        · exact ((performIn_grows rs [] s).trans (undoIn_grows _ _)).trans (grows_of_eq rfl rfl rfl)
+    | undo saved =>
+      simp only [step, Option.some.injEq, Prod.mk.injEq] at h; rw [← h.2]; exact undoIn_grows _ _
     | branch t e he =>
       simp only [step] at h
       split at h
@@ -248,6 +268,16 @@ theorem step_app_gen (k : List K) (s : State) (S : List Byte)
       | subsh b => rfl
       | andor l a r => rfl
       | neg c => rfl
+      | redir rs c =>
+        simp only [step]
+        rw [performIn_comm (fun s => s.app S) (fun _ => rfl) (app_comm_setDesc S)]
+        by_cases hf : (performIn rs [] s).2.2 = true
+        · simp only [hf, if_true]; rfl
+        · simp only [hf]
+          rw [undoIn_comm (fun s => s.app S) (app_comm_setDesc S)]; rfl
+    | undo saved =>
+      simp only [step]
+      rw [undoIn_comm (fun s => s.app S) (app_comm_setDesc S)]; rfl
     | branch t e he =>
       by_cases h0 : s.status = 0 <;> cases he <;> simp [step, h0, State.app]
     | andK a r =>
